@@ -822,7 +822,39 @@ def shard_estimate(acc, shard, nshards, params):
     drive(acc, "estimate", case_estimate, cases, shard, nshards, family="estimate[T2(2,3), T3(2,2,2) every %d-th]" % params)
 
 
-CASES = {"estimate": case_estimate, "transform": case_transform, "lazy": case_lazy, "join": case_join, "compose": case_compose}
+def case_ragged(case):
+    """Tensor.fromUncompressed without shape= on a depth-3 nest whose sub-nests have different extents (legal:
+    only sibling lists must be equally long): the computed shape contains every stored coordinate."""
+    lens, rows = case
+    out = []
+    feats = {"ragged_nest", "depth:3", "shape:computed"}
+    nest = [[[1] * k for _ in range(r)] for k, r in zip(lens, rows)]
+    exp = [len(nest), max(rows), max(lens)]
+    if lens.index(max(lens)) >= 2 or rows.index(max(rows)) >= 2:
+        feats.add("widest_subnest_at_index>=2")
+    try:
+        t = Tensor.fromUncompressed(["N", "M", "K"], nest)
+        got = list(t.getShape())
+        if got != exp:
+            fs = set(feats)
+            if any(a < b for a, b in zip(got, exp)):
+                fs.add("stored_coordinate_outside_reported_shape")
+            out.append(("fromUncompressed", "shape", fs, exp, got))
+        core.CUR.nt("ragged")
+    except Exception as ex:
+        out.append(("fromUncompressed", "exception:" + type(ex).__name__, feats | {"site:" + core.exc_site(ex)}, exp,
+                    core.tb_tail(ex)))
+    return out
+
+
+def shard_ragged(acc, shard, nshards, params):
+    # (the rows of one level must be equally many - Fiber._makeFiber asserts it -, their lengths may differ between parents)
+    cases = [(lens, (r,) * 3) for lens in itertools.product((1, 2, 3), repeat=3) for r in (1, 2)]
+    cases += [(lens, (1,) * 4) for lens in itertools.product((1, 2), repeat=4)]
+    drive(acc, "ragged", case_ragged, cases, shard, nshards, family="ragged-nests[3-4 sub-nests, leaf lengths 1..3 differing between parents]")
+
+
+CASES = {"ragged": case_ragged, "estimate": case_estimate, "transform": case_transform, "lazy": case_lazy, "join": case_join, "compose": case_compose}
 
 
 def run(ctx):
@@ -831,6 +863,7 @@ def run(ctx):
     import time as _t
     if not getattr(ctx, "only", None) or "estimate" in ctx.only:
         ctx.shards(shard_estimate, 7 if q else 1)
+        ctx.shards(shard_ragged, None, nshards=4)
     if not getattr(ctx, "only", None) or "compose" in ctx.only:
         ctx.shards(shard_compose, (2, 3 if q else 4, _t.time() + (60 if q else 600)))
         ctx.shards(shard_compose, (3, 1 if q else 2, _t.time() + (60 if q else 900)))
